@@ -317,7 +317,7 @@ pub fn run(ctx: &Ctx, rep: &mut Report) {
                         rep.count("python_driver_errors", 1);
                     }
                 } else if let Ok(v) = serde_json::from_str::<Value>(stdout.trim()) {
-                    for k in ["cases", "morphemes", "fields_compared", "splits_compared", "lookups", "history_ops", "history_probes", "python_exceptions", "thread_results", "projection_checks", "pretokenizer_calls", "py_builds", "override_checks", "word_infos_compared", "list_api_checks", "split_out_checks", "lookup_split_checks", "field_split_checks", "pretokenizer_field_checks", "narrow_fields_projection_checks"] {
+                    for k in ["cases", "morphemes", "fields_compared", "splits_compared", "lookups", "history_ops", "history_probes", "python_exceptions", "thread_results", "projection_checks", "pretokenizer_calls", "py_builds", "override_checks", "word_infos_compared", "list_api_checks", "split_out_checks", "lookup_split_checks", "field_split_checks", "pretokenizer_field_checks", "narrow_fields_projection_checks", "kept_result_checks"] {
                         rep.count(&format!("py_{}", k), v[k].as_u64().unwrap_or(0));
                     }
                     if let Some(ms) = v["mismatches"].as_array() {
